@@ -54,14 +54,13 @@ def modelAddShape : List String :=
    "except:if indices.shape[0] > self._counters['indices']: indices.resize(self._counters['indices'], axis=0)",
    "except:raise", "inc:indices:1"]
 
-/-- `_load_data` as `loadTable` models it: min start, last cell with the largest start, one block read,
+/-- `_load_data` as `loadTable` models it: smallest start, furthest end of any cell, one block read,
 every event cut at `start - tmp_start` -/
 def modelLoadCut : List String :=
   ["self._data[key] = []",
    "tmp_indices = self._object[self._locations['indices']][slc, index]",
    "tmp_start = np.min(tmp_indices[:, 0])",
-   "tmp_end_idx = np.where(tmp_indices[:, 0] == np.max(tmp_indices[:, 0]))[0][-1]",
-   "tmp_end = tmp_indices[tmp_end_idx][0] + tmp_indices[tmp_end_idx][1]",
+   "tmp_end = np.max(tmp_indices[:, 0] + tmp_indices[:, 1])",
    "tmp = self._object[val][tmp_start:tmp_end]",
    "for start, length in tmp_indices:\n    start -= tmp_start\n    self._data[key].append(tmp[start:start + length])"]
 
